@@ -195,6 +195,8 @@ static int streamMessage(void *ptr, const MPT_STRUCT(message) *msg)
 			tmp.clen = 0;
 			srm->rd.val[0] |= 0x80;
 			mpt_stream_reply(&srm->data, srm->rd.len, srm->rd.val, msg);
+			/* request is finished with its dispatch, later replies must be refused */
+			srm->rd.len = 0;
 		}
 		return ret;
 	}
